@@ -179,32 +179,28 @@ Proof.
     { intro x. unfold existing. rewrite <- in_rev, pnodup_In, <- in_rev, !in_map_iff. split.
       - intros [d [<- Hd]]. apply Hscan in Hd. apply in_map_iff in Hd. destruct Hd as [e [<- He]]. exists e. auto.
       - intros [e [<- He]]. exists (fst e). split; [reflexivity|]. apply Hscan. apply in_map. exact He. }
-    assert (Hkeep : filter (fun e : path => path_mem e (map key_of sp)) existing = existing).
-    { apply filter_all. intros x Hx. apply path_mem_In. apply Hex. exact Hx. }
-    rewrite Hkeep.
-    assert (Hdead : filter (fun b : path => negb (is_nil b))
-              (find_dead_branches (fold_left (fun t k => color_path k t) (map key_of sp) (build_tree existing)) []) = []).
-    { apply nil_of_no_elements. intros b Hb. apply filter_In in Hb. destruct Hb as [Hb Hn].
-      apply (analysis_dead existing (map key_of sp) b) in Hb. destruct Hb as [H1 H2].
-      destruct b as [|x b']; [discriminate|]. simpl in H1.
-      unfold any_prefix in H1, H2. apply existsb_exists in H1. destruct H1 as [y [Hy Hp]].
-      assert (existsb (is_prefix (x :: b')) (map key_of sp) = true); [|congruence].
-      apply existsb_exists. exists y. split; [apply Hex; exact Hy|exact Hp]. }
-    assert (Hnew : filter (fun k : path => negb (path_mem k existing)) (map key_of sp) = []).
-    { apply filter_none. intros x Hx. apply negb_false_iff. apply path_mem_In. apply Hex. exact Hx. }
-    assert (Hupd : filter (fun p : path => match alookup (join_sep p) (lk_of sp) with
-                                            | Some tgt => negb (path_eqb (realpath w cwd (pjoin (A P) p)) tgt)
-                                            | None => false end) existing = []).
-    { apply filter_none. intros x Hx. apply Hex in Hx. apply in_map_iff in Hx. destruct Hx as [e [<- He]].
-      rewrite (lk_lookup sp e) by (split; auto). rewrite (Hres e He), path_eqb_refl. reflexivity. }
-    match goal with |- {| a_obsolete := ?o; a_update := ?u; a_new := ?nw |} = _ =>
-      assert (E1 : o = []); [|assert (E2 : u = []); [|assert (E3 : nw = []); [|rewrite E1, E2, E3; reflexivity]]] end.
-    - match goal with |- context [filter ?f (find_dead_branches ?t [])] =>
-        replace (filter f (find_dead_branches t [])) with (@nil path) by (symmetry; exact Hdead) end.
-      rewrite order_by_nil. reflexivity.
-    - match goal with |- order_by hint ?l = [] => replace l with (@nil path) by (symmetry; exact Hupd) end.
-      apply order_by_nil.
-    - match goal with |- order_by hint ?l = [] => replace l with (@nil path) by (symmetry; exact Hnew) end.
-      apply order_by_nil. }
+    assert (Hexk : forall x, In x existing -> exists e, In e sp /\ x = key_of e).
+    { intros x Hx. apply Hex in Hx. apply in_map_iff in Hx. destruct Hx as [e [<- He]]. eauto. }
+    f_equal.
+    - match goal with |- remove_first _ (sort_len_desc (order_by hint ?l)) = [] => assert (E : l = []) end.
+      { apply nil_of_no_elements. intros b Hb. apply filter_In in Hb. destruct Hb as [Hb Hn].
+        apply (analysis_dead existing (map key_of sp) b) in Hb. destruct Hb as [H1 H2].
+        destruct b as [|x b']; [discriminate|]. simpl in H1.
+        unfold any_prefix in H1, H2. apply existsb_exists in H1. destruct H1 as [y [Hy Hp]].
+        assert (existsb (is_prefix (x :: b')) (map key_of sp) = true); [|congruence].
+        apply existsb_exists. exists y. split; [apply Hex; exact Hy|exact Hp]. }
+      rewrite E, order_by_nil. reflexivity.
+    - match goal with |- order_by hint ?l = [] => assert (E : l = []) end.
+      { apply nil_of_no_elements. intros x Hx. apply filter_In in Hx. destruct Hx as [Hx Hf].
+        apply filter_In in Hx. destruct Hx as [Hx _].
+        destruct (Hexk x Hx) as [e [He ->]].
+        rewrite (lk_lookup sp e (conj Hnd Ht) He) in Hf.
+        rewrite (Hres e He), path_eqb_refl in Hf. discriminate. }
+      rewrite E. apply order_by_nil.
+    - match goal with |- order_by hint ?l = [] => assert (E : l = []) end.
+      { apply nil_of_no_elements. intros x Hx. apply filter_In in Hx. destruct Hx as [Hx Hf].
+        apply negb_true_iff in Hf. apply path_mem_false in Hf. apply Hf.
+        apply filter_In. split; [apply Hex; exact Hx|apply path_mem_In; exact Hx]. }
+      rewrite E. apply order_by_nil. }
   rewrite Han. reflexivity.
 Qed.
